@@ -19,7 +19,7 @@ DEPS = {
     'C04': MODEL + ['Proofs/C04.v'],
     'C08': MODEL + ['Proofs/C08.v'],
     'C09': MODEL + ['Proofs/C09.v', 'Model/Conc.v', 'Model/ConcTree.v', 'Proofs/C09c.v'],
-    'C10': MODEL + ['Proofs/C10.v'],
+    'C10': MODEL + ['Proofs/C10.v', 'Model/Conc.v', 'Proofs/ConcDefs.v', 'Proofs/C05.v', 'Proofs/C06.v'],
     'C12': MODEL + ['Proofs/C08.v', 'Proofs/C12.v', 'Proofs/Reach.v'],
 }
 PROFILE = {'C01': 'alloc', 'C04': 'default', 'C08': 'integrity', 'C09': 'tree', 'C10': 'default', 'C12': 'consumers'}
